@@ -8,6 +8,7 @@ import Cuke.Driver.Sched
 import Cuke.Driver.Outline
 import Cuke.Driver.Norm
 import Cuke.Driver.Glue
+import Cuke.Driver.Report
 /-! `cuke-driver`: one request per line on stdin, one response per line on stdout. -/
 open Cuke Cuke.Wire Cuke.Driver
 
@@ -28,6 +29,8 @@ def dispatch (line : String) : String :=
       | "outline.expand" => handleOutlineExpand args
       | "norm.run" => handleNormRun args
       | "mon.c11" => handleMonC11 args
+      | "report.run" => handleReportRun args
+      | "mon.c14" => handleMonC14 args
       | "glue.args" => handleGlueArgs args
       | "lit.match" => handleLitMatch args
       | "zoo.reg" => handleZooReg args
